@@ -148,6 +148,41 @@ func runC13(res *Result, d *Driver, tier string, seed uint64) {
 		}
 		env.Close()
 	}
+	// ---- every place of the container, not only the writable mounts: a hostile tenant (root of its namespace) tries to
+	// make the other directories it can see writable and leaves something in each (the root, /proc, the masked
+	// directories, a read-only bind); after Reset the next tenant must find none of it ----
+	{
+		tb := mount.NewDefaultBuilder().WithTmpfs("w", "size=8m").WithTmpfs("tmp", "size=8m").WithProc().WithBind("/dev/null", "dev/null", false).FilterNotExist()
+		env, err := newEnv(container.Builder{Mounts: tb.Mounts})
+		if err == nil {
+			dirs := []string{"/", "/proc", "/proc/acpi", "/proc/scsi", "/proc/asound", "/usr", "/dev"}
+			var hostile, look []string
+			for _, dd := range dirs {
+				hostile = append(hostile, "chmod "+dd+" 777", "touch "+strings.TrimRight(dd, "/")+"/planted-c13", "mkdir "+strings.TrimRight(dd, "/")+"/planted-dir-c13")
+				look = append(look, "ls "+dd)
+			}
+			for round := 0; round < 2; round++ {
+				env.runProbe(RunSpec{Script: strings.Join(hostile, ";") + ";exit 0"}, round == 1)
+				rerr := env.Reset()
+				_, out := env.runProbe(RunSpec{Script: strings.Join(look, ";") + ";exit 0"}, false)
+				res.Case(fmt.Sprintf("planted outside the writable mounts, round %d", round), true, "reset-elsewhere")
+				res.Traces++
+				if rerr != nil || strings.Contains(out, "planted-c13") || strings.Contains(out, "planted-dir-c13") {
+					var where []string
+					for _, ln := range strings.Split(out, "\n") {
+						if strings.Contains(ln, "planted") {
+							where = append(where, strings.TrimSpace(ln)[:min(len(strings.TrimSpace(ln)), 120)])
+						}
+					}
+					res.Mismatch(Mismatch{Kind: "oracle", What: "after Reset the next tenant finds nothing an earlier program left, anywhere in the container (C13)", Input: "container{default rootfs, tmpfs w, tmpfs tmp, proc, /dev/null; default masks}: tenant 1: " + strings.Join(hostile[:6], ";") + ";... ; Reset; tenant 2 lists the directories", Impl: fmt.Sprintf("Reset: %v; still there: %s", rerr, strings.Join(where, " | ")), Oracle: "violates"})
+					break
+				}
+			}
+			env.Close()
+		} else {
+			res.Note("container with proc and default masks could not be built: %v", err)
+		}
+	}
 	res.Sample("default /w tree3 (000-mode directories): host view of /proc/<init>/root/w after Reset = []")
 
 	// ---- part B: sealed memfd ----
